@@ -85,6 +85,8 @@ def sort_of(t: T):
         return Key3
     if k in ("obj", "dict", "opaque"):
         return Ref
+    if k == "set":
+        return z3.ArraySort(sort_of(t.args[0]), BoolS)
     if k == "opt":
         return sort_of(t.args[0])
     raise Unsupported(f"sort_of {t}")
